@@ -11,6 +11,7 @@
 import GoldilocksVerif.Lemmas.NttTop
 import GoldilocksVerif.Lemmas.BridgeNttComputeR
 import GoldilocksVerif.Lemmas.BridgeNttExtend
+import GoldilocksVerif.Lemmas.BridgeNttExtendEq
 
 namespace GoldilocksVerif.C05
 open GoldilocksVerif.Model.Ntt GoldilocksVerif.NttSpec Finset
@@ -133,5 +134,93 @@ theorem C05_generated_extendPol (maxDomainSize extension : Nat) (o : Obj) (hbase
     exact c k col hk hcol
 
 end generated
+
+/-! ### the generated model, EVERY `nblock`, sizes from 1, and EQUALITY with the hand model (Lemmas/BridgeNttExtendEq.lean)
+  `C05_generated_extendPol` above covers one column block, N ≥ 2, and states the property.  Below: the TRANSLATED `extendPol`
+  EQUALS the hand model's `extendPol` bit for bit (the generated code shares one dirty scratch block between its two transforms,
+  the hand model takes fresh zero-filled ones: `Model.Ntt.nttIters_aux_irrelevant`), for every `nblock` and 1 ≤ N ≤ N_ext ≤ 2^30,
+  and the object state it returns represents, with the final heap, the hand model's object after the call. -/
+section generated_all
+open GoldilocksVerif.BridgeNtt Gen.NttGen
+
+/-- generated `extendPol` = the model's `extendPol`, bit for bit (no caller buffer, every `nblock`, 1 ≤ 2^dn ≤ 2^de ≤ 2^30, output =
+    input block or another block, any cache state); afterwards the returned object state with the final heap represents the model's
+    object `o'` (tables unchanged, the refreshed cache), the object owns existing and distinct blocks, the caller's blocks other than
+    the output are unchanged and are not the object's.  Fuel: 64, and for N = 1 more than the column count -/
+theorem C05_generated_extendPol_eq_model (fuel : Nat) (hf : 64 ≤ fuel) (hp : Heap) (self : NTT_Goldilocks) (o : Obj)
+    (hrep : ObjRep hp self o) (hin : ObjIn hp self) (hdisj : ObjDisj self) (hos : o.s ≤ 32) (hext31 : o.extension < 2 ^ 31)
+    (Out In : Nat) (hOut : Out < hp.size) (hIn : In < hp.size) (hOut0 : Out ≠ 0)
+    (hfrOut : ObjFrame self Out) (hfrIn : ObjFrame self In)
+    (dn de nc : Nat) (hde : dn ≤ de) (hde30 : de ≤ 30) (hdns : dn ≤ o.s) (hnc : 1 ≤ nc)
+    (hbound : 2 ^ de * nc * 8 < 2 ^ 64) (nphase nblock : BitVec 64)
+    (hout : 2 ^ de * nc ≤ (hp.block Out).size) (hf1 : dn = 0 → nc < fuel) :
+    match extendPol o (decide (Out = In)) (hp.block Out) (hp.block In) (2 ^ de) (2 ^ dn) nc nphase.toNat nblock.toNat with
+    | .ok (o', out) => ∃ hp' self',
+        NTT_extendPol fuel hp self ⟨Out, 0⟩ ⟨In, 0⟩ (bv (2 ^ de)) (bv (2 ^ dn)) (bv nc) Ptr.null nphase nblock =
+          some (hp', self') ∧
+        hp'.block Out = out ∧ ObjRep hp' self' o' ∧ ObjIn hp' self' ∧ ObjDisj self' ∧ hp.size ≤ hp'.size ∧
+        (∀ c, c < hp.size → c ≠ Out → ObjFrame self c → hp'.block c = hp.block c) ∧
+        (∀ c, c < hp.size → ObjFrame self c → ObjFrame self' c)
+    | .error _ =>
+        NTT_extendPol fuel hp self ⟨Out, 0⟩ ⟨In, 0⟩ (bv (2 ^ de)) (bv (2 ^ dn)) (bv nc) Ptr.null nphase nblock = none :=
+  extendPol_gen_eq fuel hf hp self o hrep hin hdisj hos hext31 Out In hOut hIn hOut0 hfrOut hfrIn dn de nc hde hde30 hdns hnc hbound
+    nphase nblock hout hf1
+
+/-- **the property on the generated function, every `nblock`, 1 ≤ N = 2^dn ≤ N_ext = 2^de ≤ 2^30**, on any reachable object state -/
+theorem C05_generated_extendPol_all (maxDomainSize extension : Nat) (o : Obj) (hbase : mkObj maxDomainSize extension = some o.base)
+    (hwf : o.wf) (hext : extension ≤ 1) (dn de : Nat) (hn : 2 ^ dn ≤ maxDomainSize) (hne : dn ≤ de) (hde : de ≤ 30)
+    (fuel : Nat) (hf : 64 ≤ fuel) (hp : Heap) (self : NTT_Goldilocks) (hrep : ObjRep hp self o) (hin : ObjIn hp self)
+    (hdisj : ObjDisj self)
+    (Out In : Nat) (hOut : Out < hp.size) (hIn : In < hp.size) (hOut0 : Out ≠ 0)
+    (hfrOut : ObjFrame self Out) (hfrIn : ObjFrame self In)
+    (ncols : Nat) (nphase nblock : BitVec 64) (hnc : 1 ≤ ncols) (hbound : 2 ^ de * ncols * 8 < 2 ^ 64)
+    (hout : 2 ^ de * ncols ≤ (hp.block Out).size) (hf1 : dn = 0 → ncols < fuel) :
+    ∃ hp' self' o', NTT_extendPol fuel hp self ⟨Out, 0⟩ ⟨In, 0⟩ (bv (2 ^ de)) (bv (2 ^ dn)) (bv ncols) Ptr.null nphase nblock =
+        some (hp', self') ∧ (hp'.block Out).size = (hp.block Out).size ∧
+      ObjRep hp' self' o' ∧ o'.wf ∧ o'.base = o.base ∧
+      ∀ c, c < ncols → ∃ f : Nat → F,
+        (∀ j, j < 2 ^ dn →
+          ∑ i ∈ range (2 ^ dn), f i * (omega dn ^ j) ^ i = den ((hp.block In).getD (j * ncols + c) 0#64)) ∧
+        (∀ k, k < 2 ^ de →
+          den ((hp'.block Out).getD (k * ncols + c) 0#64) = ∑ i ∈ range (2 ^ dn), f i * (7 * omega de ^ k) ^ i) := by
+  have hm : maxDomainSize ≠ 0 := by have := Nat.two_pow_pos dn; omega
+  have hO0 := mkObj_ok maxDomainSize extension o.base hm hext hbase
+  have ho : setCache o.base o.rcache = o := by cases o; rfl
+  have hO : ObjOk o (log2 maxDomainSize) := by
+    have := hO0.setCache o.rcache (by rw [ho]; exact hwf)
+    rw [ho] at this; exact this
+  obtain ⟨hs1, hs2, hs3⟩ := mkObj_s_val maxDomainSize extension o.base hm hbase
+  have hsb : o.base.s = o.s := rfl
+  have hse : o.base.extension = o.extension := rfl
+  rw [hsb] at hs1 hs2
+  have hd : dn ≤ log2 maxDomainSize := (Nat.le_log2 hm).mpr hn
+  have hd32 : dn ≤ 32 := Nat.le_trans hd hO.dle
+  have hosize : 2 ^ de * ncols ≤ (if decide (Out = In) = true then hp.block In else hp.block Out).size := by
+    by_cases h : Out = In
+    · subst h; simp; omega
+    · simp [h]; omega
+  obtain ⟨o', out, e, hosz, hwf', hbase', c⟩ := extendPol_spec o _ hO (decide (Out = In)) (hp.block Out) (hp.block In) dn de ncols
+    nphase.toNat nblock.toNat hd hne (by omega) hnc hosize
+  have hg := extendPol_gen_eq fuel hf hp self o hrep hin hdisj hs2 (by rw [← hse, hs3]; omega) Out In hOut hIn hOut0 hfrOut hfrIn
+    dn de ncols hne hde (by omega) hnc hbound nphase nblock hout hf1
+  rw [e] at hg
+  obtain ⟨hp', self', hrun, hblk, hrep', _⟩ := hg
+  have hosz' : out.size = (hp.block Out).size := by
+    rw [hosz]
+    by_cases h : Out = In
+    · subst h; simp
+    · simp [h]
+  refine ⟨hp', self', o', hrun, by rw [hblk, hosz'], hrep', hwf', hbase', ?_⟩
+  intro col hcol
+  refine ⟨idft (omega dn) (2 ^ dn) (fun j => cell (hp.block In) ncols j col), ?_, ?_⟩
+  · intro j hj
+    have := (lde_welldef (omega_prim dn hd32) (two_pow_ne_zero dn) (fun j => cell (hp.block In) ncols j col)
+      (idft (omega dn) (2 ^ dn) (fun j => cell (hp.block In) ncols j col))).mpr (fun _ _ => rfl) j hj
+    exact this
+  · intro k hk
+    rw [hblk]
+    exact c k col hk hcol
+
+end generated_all
 
 end GoldilocksVerif.C05
